@@ -184,9 +184,22 @@ def block_consts(ctx):
         if v[0] == "agg" and v[1] == "block::Block":
             d = dict(zip(v[3], v[4]))
             try:
-                consts[b.path] = (d["name"][2], d["start"][2], d["end"][2])
+                consts[b.path] = (d["name"][2], d["start"] if d["start"][0] == "field" else d["start"][2], d["end"] if d["end"][0] == "field" else d["end"][2])
             except Exception:
                 consts[b.path] = None
+    # a field written as a reference to another constant's field (an alias that takes its extent from the block it
+    # stands for) is read through; anything else that is not a literal leaves the constant undetermined
+    for k, v in list(consts.items()):
+        if v is None:
+            continue
+        r = list(v)
+        for j in (1, 2):
+            seen = 0
+            while isinstance(r[j], tuple) and r[j][0] == "field" and r[j][1][0] == "named" and seen < 4:
+                o_ = consts.get(r[j][1][1])
+                r[j] = (o_[{"start": 1, "end": 2}[r[j][2]]] if (o_ and r[j][2] in ("start", "end")) else None)
+                seen += 1
+        consts[k] = tuple(r) if all(isinstance(x, int) for x in r[1:]) and isinstance(r[0], str) else None
     allb = ctx.body("block::ALL_BLOCKS")
     order = None
     if allb is not None and allb.promoted:
@@ -197,7 +210,7 @@ def block_consts(ctx):
     return consts, order
 
 
-@rule("TABLE-BLOCKS", ["C10"], floor=330)
+@rule("TABLE-BLOCKS", ["C10", "C09"], floor=330)
 def table_blocks(ctx):
     """ALL_BLOCKS = the data lines of Blocks.txt followed by CompatBlocks.txt (name, start, end), same order,
     and no Block constant exists outside ALL_BLOCKS."""
